@@ -16,6 +16,10 @@ checks = {
    "Generated tables with a unique id per row are sorted and cut by the real query pipeline (incl. the parallel path, --cpu 2..8 on 160..700 rows); an online oracle checks permutation-ness, absence of adjacent inversions under an independent comparator, equality with a reference sort for total orders, and exact LIMIT/OFFSET/PERCENT/WITH TIES arithmetic at boundary parameters.",
    "Trusts the harness comparator (numbers, datetimes, upper-cased trimmed text, NULL position defaults from the manual). Negative limits/offsets judged as 0, PERCENT>100 as 100.",
    "runtime monitor: sortedness/permutation/cut oracle over executed queries with unique row ids"),
+ "C09": ("exploration", "§5 C09",
+   "(a) Stress: 12 client loops of real csvq processes run increment / FOR UPDATE / ROLLBACK / read / short-timeout transactions on one table with delays injected inside the lock protocol; offline monitors over the merged hook trace and the results check hold-interval overlap, conservation, exactly-once, timeout-changes-nothing and (porcupine) linearizability. (b) Systematic schedules: 2..3 real processes run under a step controller that serialises every hook point of acquisition, commit and release through FIFOs; two-role schedules are enumerated as bit strings over the first 14 decision points, three-role ones explored with bounded random preemption; after each step the believed-holder set must be compatible and at the end the table must reflect every committed writer.",
+   "Observed schedules only: bounded decision depth, step cap and a wall-clock watchdog (firing = inconclusive). Either protection layer (lock files or flock) may exclude; only real overlaps / lost updates are judged.",
+   "runtime monitors over recorded event logs (interval overlap, conservation, exactly-once, porcupine linearizability) + controlled-schedule enumeration through hook points"),
  "C10": ("fault_enumeration", "§5 C10",
    "For each generated transaction the real binary is traced once, then killed (SIGKILL to itself from a hook) at EVERY hook point reached between the start of COMMIT and process exit, each on a fresh copy of the directory; after each death every pre-existing table must exist with complete old or complete new bytes and be usable after removing the control files. Thorough adds a walk over every file-system syscall of the commit with strace kill injection.",
    "Crash = process death at hook/syscall granularity; no torn write(2), no power-loss reordering (csvq never fsyncs; the property speaks of the process dying). Old/new bytes are taken from the initial files and from an undisturbed run of the same transaction.",
